@@ -719,13 +719,50 @@ def replay_prank_eoa(r):
     return {"reproduced": False, "detail": "a one-shot prank is consumed by a call to an account without code"}
 
 
+def replay_default_block(r):
+    """native: the block of one test contract's deployment is written by vm.warp; the next contract's deployment must read the default"""
+    import halmos.__main__ as hm
+    from halmos.utils import con
+
+    a = hm.mk_block()
+    a.timestamp = con(4242)
+    a.chainid = con(5)
+    b = hm.mk_block()
+    if b is a or b.timestamp is a.timestamp or b.chainid is a.chainid:
+        return {"reproduced": True, "detail": f"mk_block() for a second test contract returns {'the same Block object' if b is a else 'a Block sharing fields'}: after vm.warp(4242) / vm.chainId(5) in the first contract's constructor the second contract, which calls no cheatcode, reads block.timestamp = {b.timestamp}, block.chainid = {b.chainid} (defaults: 1, 31337)", "inputs": "contract A: vm.warp(4242), vm.chainId(5); contract B: none"}
+    return {"reproduced": False, "detail": "every deployment gets a Block of its own holding the defaults"}
+
+
+def default_block_cases():
+    """the block a test contract is deployed with is a fresh object holding Foundry's defaults: warp/roll/fee/chainId/coinbase/
+    difficulty assign its fields in place, so a shared one would carry one contract's cheatcodes into the next"""
+    import halmos.__main__ as hm
+
+    def harness(interp):
+        ctx = interp.ctx
+        a = interp.call(hm.mk_block, [], {})
+        b = interp.call(hm.mk_block, [], {})
+        ctx.oblige("mk_block: every call returns a Block of its own (in-place writes of the block cheatcodes stay within one deployment)", z3.BoolVal(a is not b and isinstance(a, hs.Block) and isinstance(b, hs.Block)))
+
+        def val(t):
+            t = t.as_z3() if hasattr(t, "as_z3") else t
+            return z3.simplify(t).as_long() if z3.is_bv(t) else t
+
+        want = {"basefee": 0, "chainid": 31337, "coinbase": 0, "difficulty": 0, "gaslimit": 2**63 - 1, "number": 1, "timestamp": 1}
+        for blk, nm in ((a, "first"), (b, "second")):
+            got = {k: val(getattr(blk, k)) for k in want}
+            ctx.oblige(f"mk_block: the {nm} block holds Foundry's defaults", z3.BoolVal(got == want), info={"got": str(got)})
+
+    return [Case(f"{PROP}/__main__.mk_block", "two deployments in one process", harness, replay=replay_default_block, sources=("halmos.__main__:mk_block",))]
+
+
 def build_cases(tier="quick"):
     # block-setting cheatcodes assign fields of ex.block in place: sibling paths must own their Block (C02/C20)
     from contracts import c02, c20
 
     ref = [Case(f"{PROP}/sevm.SEVM.create_branch#block-ownership", c.case, c.harness, replay=c.replay, sources=c.sources) for c in c02.path_cases() if "create_branch" in c.unit]
     ref += [Case(f"{PROP}/" + c.unit.split("/", 1)[1] + "#block-ownership", c.case, c.harness, replay=c.replay, sources=c.sources) for c in c20.fork_cases() if c.unit.endswith(("create_branch", "run_message"))]
-    return prank_cases() + resolve_prank_cases() + prank_arm_cases() + setter_cases() + create_cases() + call_prank_cases() + ref
+    return default_block_cases() + prank_cases() + resolve_prank_cases() + prank_arm_cases() + setter_cases() + create_cases() + call_prank_cases() + ref
 
 
 def grounds():
